@@ -140,6 +140,8 @@ def equivariance(ctx, chk, tier):
 
 
 def run(ctx, chk, tier):
+    from . import c01 as _c01
+    _c01.flag_identity(ctx, chk)   # direction flags: identity comparisons need BinaryLabel members on every construction path
     chk.rule_text = ("R08.1: field-by-field image of swap() for 2 classes x 4 configurations; R08.2: 32 cell identities between derived cm tables; "
                      "R08.3: derived threshold terms evaluated on representative pairs (original, transformed); non-trivial = term mentions scores")
     chk.explanation = ("swap() is evaluated symbolically and its constructor arguments compared with the mirrored state. Rate symmetries are decided on the derived "
